@@ -160,4 +160,28 @@ example : Spec.encodeQs [([97, 38], [61, 255, 32]), ([], [43])]
 example : parseQsBytes true false [97, 37, 50, 54, 61, 37, 51, 68, 37, 70, 70, 43, 38, 61, 37, 50, 66]
     = .ok [([97, 38], [[61, 255, 32]]), ([], [[43]])] := by rfl
 
+/-! ## shortcuts in the Python that the model leaves out are subsumed -/
+
+/-- the `if '&' not in s: return s` shortcut of `html.unescape` is subsumed by the scan -/
+theorem unescape_no_amp (T : Table) (s : Str) (h : ∀ c ∈ s, c ≠ 38) : xhtmlUnescape T s = s := by
+  unfold xhtmlUnescape
+  induction s with
+  | nil => rfl
+  | cons c s ih =>
+    simp only [unescGo, if_neg (h c (by simp))]
+    rw [ih (fun y hy => h y (by simp [hy]))]
+
+/-- the `if not bs.rstrip(_ALWAYS_SAFE_BYTES + safe): return bs.decode()` shortcut of `quote_from_bytes` is subsumed -/
+theorem quote_all_safe (safe : List Nat) (bs : Bytes) (h : ∀ b ∈ bs, (alwaysSafe b || safe.contains b) = true) :
+    quoteFromBytes safe bs = bs := by
+  induction bs with
+  | nil => rfl
+  | cons b bs ih =>
+    simp only [quoteFromBytes, List.flatMap_cons] at ih ⊢
+    rw [ih (fun y hy => h y (by simp [hy]))]
+    simp only [quoteByte, h b (by simp), if_true]; rfl
+
+/-- the five sequential `replace` passes of `html.escape` equal one pass over the characters -/
+theorem escape_single_pass (s : Str) : xhtmlEscape s = s.flatMap escC := htmlEscape_eq_flatMap s
+
 end TornadoModel.C21
